@@ -332,6 +332,7 @@ def run(ctx: RuleContext, p: Program) -> None:
     ctx.try_rule(round4.rule_claim_sem, p, 'CLAIM-SEM', 3 if ctx.tier == 'quick' else 5)
     ctx.try_rule(round4.rule_id_cmp, p, 'ID-CMP')
     ctx.try_rule(rule_postlex_block, p, 'POSTLEX-BLOCK')
+    ctx.try_rule(rule_flag_writers, p, 'FLAG-WRITERS')
     from . import presence
     ctx.try_rule(presence.rule_presence_truth, p, 'PRESENCE-TRUTH')
     from . import claimorder
@@ -446,3 +447,38 @@ def rule_postlex_block(ctx: RuleContext, p: Program, rid: str) -> None:
     if n < 500:
         raise AnalysisError(f'POSTLEX-BLOCK: only {n} streams evaluated')
     ctx.check(problem is None, rid, 'parser:PostLex.process', 'blocks follow indentation', problem or '', fn.where, note=f'{n} token streams')
+
+
+# ====================================================================== FLAG-WRITERS (added in round 7)
+def rule_flag_writers(ctx: RuleContext, p: Program, rid: str) -> None:
+    ctx.rule(rid, 'the `claimed` flag of a block comment is written only where ownership really changes: set to True by the claim paths (which '
+                  'store the comment in an owner slot / item list), cleared by the unclaim paths (which take it out of the slot while it stays in '
+                  'the document), cleared by the parser for a comment of a gap, and kept by the token\'s own constructor / setter / clone.  Any '
+                  'other writer -- a pop, an insert, a copy -- makes the flag disagree with the owner it is the only record of: a comment that is '
+                  'an item of a field but reads "free" is claimed a second time by its neighbour')
+    n = 0
+    for m in p.modules.values():
+        if m.name.endswith('_test') or 'modelgen' in m.name or '.generated' in m.name:
+            continue
+        for fn in p.functions_in(m):
+            for a in walk_no_nested(fn.node):
+                tgts = a.targets if isinstance(a, ast.Assign) else [a.target] if isinstance(a, (ast.AugAssign, ast.AnnAssign)) else []
+                for t in tgts:
+                    if not (isinstance(t, ast.Attribute) and t.attr in ('claimed', '_claimed')):
+                        continue
+                    n += 1
+                    val = a.value if isinstance(a, (ast.Assign, ast.AnnAssign)) else None
+                    truth = val.value if isinstance(val, ast.Constant) and isinstance(val.value, bool) else None
+                    own = fn.cls is not None and fn.cls.name == 'BlockComment' and self_attr(t) is not None
+                    name = fn.name
+                    claim_path = name in ('_claim_comment', 'claim') or (name.startswith('claim') and 'unclaim' not in name)
+                    unclaim_path = 'unclaim' in name
+                    parser_gap = fn.cls is not None and fn.cls.name == 'ModelBuilder'
+                    ok = own or (truth is True and claim_path) or (truth is False and (unclaim_path or parser_gap))
+                    ctx.check(ok, rid, f'{m.name.split(".", 1)[1]}:{fn.qualname}', norm(a)[:80],
+                              f'`{norm(a)[:80]}` in {fn.qualname}: the claimed flag is {"cleared" if truth is False else "set" if truth is True else "written"} '
+                              f'outside the claim / unclaim paths -- ownership (a slot, an item list) does not change here, or changes without the '
+                              f'other writers knowing: the flag is the only guard against a second owner', f'{m.relpath}:{a.lineno}',
+                              note='claim / unclaim path, parser gap, or the token itself', nontrivial=False)
+    if n < 5:
+        raise AnalysisError(f'FLAG-WRITERS: only {n} writers of the claimed flag found (6 confirmed by hand)')
